@@ -47,7 +47,7 @@ def idx_runs():
     rs = []
     for e in range(1, 2049):
         tiers = ['quick', 'thorough'] if e in E_QUICK else ['thorough']
-        rs.append(dict(id='idx%d' % e, entry='h_idx', tiers=tiers, cls='unbounded', defs={'XV_E': e},
+        rs.append(dict(id='idx%d' % e, entry='h_idx', tiers=tiers, cls='unbounded', defs={'XV_E': e}, solver=['--sat-solver', 'cadical'],
                        note='pure arithmetic for entries_per_node = %d, both tickets symbolic' % e))
     return rs
 def shape_runs(rid, entry, shapes, quick, **kw):
@@ -107,13 +107,19 @@ RUNS = (
 UNIT = dict(
   title='ramalhete_queue: index map, node ctor/dtor, push, pop, try_pop, queue ctor/dtor (C04, C07)',
   properties=['C04', 'C07'],
-  drops='templates (value_type/raw_type = opaque 63-bit word, marked_value = word with the mark in bit 63 as proved for marked_ptr in unit mp); '
-        'guard_ptr = word (acquire = protected snapshot, reclaim = ghost retire counter); backoff objects and calls dropped; '
-        'new/delete of nodes = allocation from a pool that runs the lowered real node constructor / destructor; '
-        'pointer_queue_traits calls are contract stubs (proved per variant in unit pqt); entries_per_node and pop_retries are compile-time shapes',
+  drops='templates: value_type / raw_type / marked_value / marked_ptr / guard_ptr are opaque 16-bit words (the code only copies and compares them: data independence); '
+        'marked_value keeps its mark in the top bit of the word (bit 63 of the real marked_ptr<T,1>, contract of unit mp); '
+        'guard_ptr: acquire = protected snapshot, reclaim = ghost retire counter; backoff objects and calls dropped; '
+        'nodes are kept as one small array per member (node->member is rewritten mechanically to N_member(node)); '
+        'new/delete of nodes = allocation from a pool of 4 that runs the lowered real node constructor / destructor; '
+        'pointer_queue_traits calls are contract stubs (proved per variant in unit pqt); entries_per_node and pop_retries are compile-time shapes; '
+        'in the SEQ runs the retry loops of push/pop are cut by invariants (PUSHSEQ/POPSEQ), cross-checked by completely unwound runs for entries_per_node 1, 2',
   assumptions=['guard_ptr contract (acquire returns a protected snapshot, reclaim retires once) - proved per reclaimer in other units',
                'pointer_queue_traits contract - unit pqt',
-               'ticket counters stay below 2^31 (no wrap of the 32-bit push_idx/pop_idx: needs > 10^8 failed attempts on one node)',
+               'ticket counters stay below 2^26 tickets per node (no wrap of the 32-bit push_idx/pop_idx: needs > 10^7 failed attempts on one node)',
+               'counters far beyond the node (more than entries_per_node+4 tickets) are abstracted to "any value >= that" (a superset of the reachable multiples of step_size)',
+               'INT runs rely: counters only grow, next is written once, an entry changes only null->value / null->INVALID / value->INVALID, '
+               'the entry of a drawn ticket is touched only by the partner of that ticket, a node private to the thread is not touched',
                'linearizability of the concurrent composition is the assumed lemma (DESIGN.md C04)'],
   consts=[
     dict(name='XV_STEP', file=F, regex=r'static constexpr unsigned step_size = ([^;]+);'),
